@@ -138,6 +138,7 @@ type treeEvent struct {
 	Survivors   []int  `json:"survivors"`   // descendants (0 = the direct child) alive 300 ms after the return
 	SurvivorsIn []int  `json:"survivorsIn"` // of those, in the group
 	IsOn        bool   `json:"isOn"`
+	IsOnAtRet   bool   `json:"isOnAtReturn"` // IsOn() asked by the caller the moment Execute() / Stop() returned
 	Result      string `json:"result"`
 	SetupOK     bool   `json:"setupOk"`
 	Note        string `json:"note,omitempty"`
@@ -315,6 +316,7 @@ func runTree(id int, sc scenario, scratch string) (treeEvent, error) {
 		}
 		if sc.StartMode == "execute" {
 			err := <-done
+			ev.IsOnAtRet = p.IsOn()
 			if err == nil {
 				ev.Result = "nil"
 			} else {
